@@ -68,6 +68,8 @@ class Ctx:
         self.count = 0
         self.enabled = True
         self.read_boundaries = False   # opt-in: files opened for READING come back wrapped (ReadProxy)
+        self.extra_read_roots = []     # opt-in: directories OUTSIDE the root whose files, opened for reading, are wrapped too
+                                       # (the caller's data files: reads of the SOURCE become scheduling points)
 
     def under(self, p):
         try:
@@ -310,6 +312,14 @@ def _open_wrap(real):
             return f
         p = ctx.under(file)
         opener = k.get("opener")
+        if p is None and ctx.read_boundaries and ctx.extra_read_roots and not any(c in mode for c in "wax+") \
+                and not isinstance(file, int):
+            try:
+                ap = os.path.abspath(os.fspath(file))
+            except TypeError:
+                ap = None
+            if ap and any(ap == r or ap.startswith(r + os.sep) for r in ctx.extra_read_roots):
+                return ReadProxy(real(file, mode, *a, **k), ctx, ap)
         if p is None:
             f = real(file, mode, *a, **k)
             # tempfile.NamedTemporaryFile: path is a directory + opener creating the file
